@@ -58,25 +58,16 @@ Definition newh (b : fblock) (nh : option hval) : hval :=
   match fb_state b, nh with SChg, Some h => h | _, _ => fb_hash b end.
 Definition gC (pos : nat) (nh : option hval) (b : fblock) : fblock :=
   if Nat.eqb (fb_pos b) pos then mkFB SBlk pos (newh b nh) else b.
-Definition gS (pos : nat) (h : hval) (b : fblock) : fblock :=
-  if Nat.eqb (fb_pos b) pos && bstate_eqb (fb_state b) SChg then mkFB SChg pos h else b.
-
 Lemma gC_pos pos nh b : fb_pos (gC pos nh b) = fb_pos b.
 Proof. unfold gC. destruct (Nat.eqb (fb_pos b) pos) eqn:E; [apply Nat.eqb_eq in E; simpl; auto | reflexivity]. Qed.
-Lemma gS_pos pos h b : fb_pos (gS pos h b) = fb_pos b.
-Proof.
-  unfold gS. destruct (Nat.eqb (fb_pos b) pos) eqn:E; simpl; [|reflexivity].
-  apply Nat.eqb_eq in E. destruct (bstate_eqb (fb_state b) SChg); simpl; auto.
-Qed.
-
 Lemma complete_disk_eq pos nh d :
   complete_disk pos nh d =
   mkCD (map (mapf (gC pos nh)) (cd_files d))
        (filter (fun ph : nat * hval => (fun p => negb (Nat.eqb p pos)) (fst ph)) (cd_deleted d)) (cd_links d) (cd_dirs d).
 Proof. reflexivity. Qed.
-Lemma skipped_disk_eq pos h d :
-  skipped_disk pos (Some h) d =
-  mkCD (map (mapf (gS pos h)) (cd_files d)) (cd_deleted d) (cd_links d) (cd_dirs d).
+(* since the repair of F-C05a a skipped stripe changes no block: the hash computed for a CHG block is stored only
+   when the stripe completes *)
+Lemma skipped_disk_eq pos nh d : skipped_disk pos nh d = d.
 Proof. reflexivity. Qed.
 
 Lemma complete_disk_local pos nh d : local_upd pos d (complete_disk pos nh d).
@@ -87,13 +78,7 @@ Proof.
   - intros p H. apply negb_true_iff, Nat.eqb_neq. exact H.
 Qed.
 Lemma skipped_disk_local pos nh d : local_upd pos d (skipped_disk pos nh d).
-Proof.
-  destruct nh as [h|]; [|left; reflexivity].
-  right. exists (gS pos h), (fun _ => true). repeat split.
-  - apply gS_pos.
-  - intros b H. unfold gS. destruct (Nat.eqb (fb_pos b) pos) eqn:E; [apply Nat.eqb_eq in E; contradiction | reflexivity].
-  - rewrite skipped_disk_eq. rewrite filter_true. reflexivity.
-Qed.
+Proof. left. reflexivity. Qed.
 
 (* the slot at pos itself after completion / after a skip *)
 Lemma complete_disk_slot pos nh d :
@@ -109,23 +94,8 @@ Proof.
   - rewrite (find_deleted_filter (fun p => negb (Nat.eqb p pos))). rewrite Nat.eqb_refl. simpl.
     destruct (find_deleted pos (cd_deleted d)); reflexivity.
 Qed.
-Lemma skipped_disk_slot pos nh d :
-  slot_at (skipped_disk pos nh d) pos =
-  match slot_at d pos with
-  | SFile f i b =>
-      match nh with
-      | Some h => SFile (mapf (gS pos h) f) i (if bstate_eqb (fb_state b) SChg then mkFB SChg pos h else b)
-      | None => SFile f i b
-      end
-  | s => s
-  end.
-Proof.
-  destruct nh as [h|]; [|simpl; destruct (slot_at d pos); reflexivity].
-  rewrite skipped_disk_eq. rewrite slot_at_mapped by apply gS_pos. unfold slot_at.
-  destruct (find_in_files pos (cd_files d)) as [[[f i] b]|] eqn:E.
-  - apply find_in_files_pos in E. destruct E as [E _]. unfold gS. rewrite E, Nat.eqb_refl. reflexivity.
-  - destruct (find_deleted pos (cd_deleted d)); reflexivity.
-Qed.
+Lemma skipped_disk_slot pos nh d : slot_at (skipped_disk pos nh d) pos = slot_at d pos.
+Proof. reflexivity. Qed.
 
 (* content level *)
 Definition local_upd_c (pos : nat) (c c' : content) : Prop :=
@@ -714,31 +684,18 @@ Section Stripe.
         * intros v [E1 E2]. split; [congruence|]. intros j Hj. rewrite Hl in Hj.
           specialize (E2 j Hj). destruct (HQ j Hj) as [HQ1 HQ2]. rewrite Hslot.
           destruct (slot_of c pos j) as [|f i b|h]; simpl in *; [exact E2 | congruence | destruct HQ1].
-    - (* skipped *)
+    - (* skipped: neither states nor hashes change *)
       set (c' := mkC _ _ _).
-      assert (Hslot : forall j, slot_of c' pos j =
-                                match slot_of c pos j with
-                                | SFile f i b =>
-                                    match ss_nh A j with
-                                    | Some h => SFile (mapf (gS pos h) f) i (if bstate_eqb (fb_state b) SChg then mkFB SChg pos h else b)
-                                    | None => SFile f i b
-                                    end
-                                | s => s
-                                end).
+      assert (Hslot : forall j, slot_of c' pos j = slot_of c pos j).
       { intro j. unfold c'. rewrite ss_disks_slot. rewrite slot_of_nth.
         destruct (nth j (c_disks c) None) as [d|]; [|reflexivity]. apply skipped_disk_slot. }
       assert (Hl : length (c_disks c') = length (c_disks c)).
       { unfold c'. simpl. unfold ss_disks. apply length_map_combine_seq. }
       intro Hsyn. simpl.
-      assert (Hv : forall j, sview_of (slot_of c' pos j) = sview_of (slot_of c pos j)).
-      { intro j. destruct Hsyn as [Hs _]. specialize (Hs j). rewrite Hslot in *.
-        destruct (slot_of c pos j) as [|f i b|h]; try reflexivity.
-        destruct (ss_nh A j) as [h|]; [|reflexivity]. simpl in *.
-        destruct (fb_state b); simpl in *; try reflexivity; discriminate Hs. }
+      assert (HV : same_views c c' pos) by (split; [exact Hl | intro j; rewrite Hslot; reflexivity]).
       split.
-      + apply stripe_synced_quiet. eapply same_views_synced; [|exact Hsyn].
-        split; [symmetry; exact Hl | intro j; symmetry; apply Hv].
-      + intros v Hv'. eapply same_views_enc; [|exact Hv']. split; [exact Hl | exact Hv].
+      + apply stripe_synced_quiet. eapply same_views_synced; [apply same_views_sym; exact HV | exact Hsyn].
+      + intros v Hv'. eapply same_views_enc; [exact HV | exact Hv'].
   Qed.
 
   Lemma sync_stripe_local_upd o now iob c par fs faults pos :
@@ -747,6 +704,47 @@ Section Stripe.
     rewrite sync_stripe_eq. cbv zeta.
     destruct (a_bail (ss_A o iob c fs faults pos)); simpl; [apply local_upd_c_refl|].
     destruct (ss_proceed _ _); apply ss_disks_local; intros j d; [apply complete_disk_local | apply skipped_disk_local].
+  Qed.
+
+  (* a file slot stays a file slot of the same size and block index, a non-file slot stays a non-file slot:
+     well-formedness of the injected read outcomes survives any local update, at every position *)
+  Lemma local_upd_fault_wf pos d d' p fo : local_upd pos d d' -> fault_wf (slot_at d p) fo -> fault_wf (slot_at d' p) fo.
+  Proof.
+    intros [E | [g [P [Hg [Hid [HP E]]]]]]; subst d'; [auto|].
+    rewrite slot_at_mapped by exact Hg. unfold slot_at.
+    destruct (find_in_files p (cd_files d)) as [[[f i] b]|]; [simpl; auto|].
+    intros _. destruct (find_deleted p _); simpl; destruct fo as [[]|]; exact I.
+  Qed.
+  Lemma local_upd_c_faults_wf pos c c' p faults : local_upd_c pos c c' -> faults_wf c p faults -> faults_wf c' p faults.
+  Proof.
+    intros [Hl H] Hwf j. specialize (Hwf j). specialize (H j). rewrite slot_of_nth in *.
+    destruct (nth j (c_disks c) None) as [d|].
+    - destruct H as [d' [E Hu]]. rewrite E. eapply local_upd_fault_wf; eauto.
+    - rewrite H. destruct (nth j faults None) as [[]|]; exact I.
+  Qed.
+  Lemma sync_stripe_faults_wf o now iob c par fs faults pos p fl :
+    faults_wf c p fl -> faults_wf (so_content (sync_stripe hashf bs nlev o now iob c par fs faults pos)) p fl.
+  Proof. apply local_upd_c_faults_wf with (pos := pos). apply sync_stripe_local_upd. Qed.
+
+  (* the visited stripe afterwards: if it is quiet it is synced (completed), or nothing changed and nothing was written *)
+  Lemma sync_stripe_quiet_after o now iob c par fs faults pos :
+    let r := sync_stripe hashf bs nlev o now iob c par fs faults pos in
+    stripe_quiet (so_content r) pos ->
+    stripe_synced (so_content r) pos \/ (same_views c (so_content r) pos /\ so_write r = None).
+  Proof.
+    rewrite sync_stripe_eq. cbv zeta.
+    destruct (a_bail (ss_A o iob c fs faults pos)) eqn:Hbail; simpl.
+    { intros _. right. split; [apply same_views_refl | reflexivity]. }
+    set (A := ss_A o iob c fs faults pos) in *.
+    destruct (ss_proceed A (ss_fixed A c par fs faults pos)) eqn:Hpro.
+    - intros [H1 H2]. left. split; [|exact H2]. intro j. specialize (H1 j).
+      rewrite ss_disks_slot in *.
+      destruct (nth j (c_disks c) None) as [d|]; [|exact I].
+      rewrite complete_disk_slot in *. destruct (slot_at d pos); simpl; auto.
+    - intros _. right. split; [|reflexivity]. split.
+      + simpl. unfold ss_disks. apply length_map_combine_seq.
+      + intro j. rewrite ss_disks_slot. rewrite slot_of_nth.
+        destruct (nth j (c_disks c) None) as [d|]; reflexivity.
   Qed.
 
   (* 1. the block map *)
@@ -803,5 +801,20 @@ Section Stripe.
         destruct (HP lv Hlv) as [v [E1 E2]]. exists v. split; [|apply HE; exact E2].
         rewrite nth_set_ext_other by exact Hp. exact E1.
       + destruct (HP lv' Hin) as [v [E1 E2]]. exists v. split; [exact E1 | apply HE; exact E2].
+  Qed.
+  (* PastOK at the visited position survives the iteration (since the repair of F-C05a a skipped stripe keeps its
+     CHG hashes, so a position may be visited again) *)
+  Theorem sync_stripe_past o now iob c par fs faults pos :
+    faults_wf c pos faults -> ParOK hashf bs c par -> PastOK hashf bs c par pos ->
+    let r := sync_stripe hashf bs nlev o now iob c (map (fun lv => nth pos lv PNone) par) fs faults pos in
+    let par' := match so_write r with Some v => set_parity par pos v | None => par end in
+    PastOK hashf bs (so_content r) par' pos.
+  Proof.
+    intros Hwf HP HPast r par' Hq.
+    destruct (sync_stripe_quiet_after o now iob c (map (fun lv => nth pos lv PNone) par) fs faults pos Hq) as [Hs|[HV Hw]].
+    - exact (sync_stripe_par o now iob c par fs faults pos Hwf HP HPast pos Hs).
+    - fold r in Hw, HV. unfold par'. rewrite Hw.
+      eapply same_views_par_enc; [exact HV|]. apply HPast.
+      eapply same_views_quiet; [apply same_views_sym; exact HV | exact Hq].
   Qed.
 End Stripe.
